@@ -1566,10 +1566,17 @@ class System:
                 # The name might change while processing: the module, or a package above it, 
                 # can be moved by a re-export.
                 fullName = mod.fullName()
+                depth = len(self.processing_modules)
                 self.processing_modules.append(fullName)
                 if mod._py_string is None:
                     self.msg("processModule", "processing %s"%(self.processing_modules), 1)
-                builder.processModuleAST(ast, mod)
+                try:
+                    builder.processModuleAST(ast, mod)
+                except RecursionError:
+                    # The code is nested too deeply for the recursive walk (or the chain of imports
+                    # that led here is too long): give up on this module, not on the whole run.
+                    del self.processing_modules[depth + 1:]
+                    mod.report("cannot analyse module: maximum recursion depth exceeded")
                 mod.state = ProcessingState.PROCESSED
                 head = self.processing_modules.pop()
                 assert head == fullName
